@@ -8,6 +8,16 @@ COMMON_TB = [
 ]
 
 CHECKS = {
+    "C19": {
+        "id": "C19",
+        "engine": "conn",
+        "trusted_base": COMMON_TB + [
+            "modelled, not verified: HashMap (association lists; the route map's iteration order is an arbitrary permutation at every lookup), the invoked handler's behaviour (an input), send_message + write_all (one boolean input: written completely or not at all), get_next_message / the socket (replies are checked by decoding them at the peer)",
+        ],
+        "level_text": "Proved in Lean for all patterns, paths, route tables, iteration orders and histories: ObjectPathPattern::new/matches return Some(captures) iff the declarative segment-by-segment relation holds, with exactly the captured segments (last wins); each dispatch step invokes exactly one handler, a route whose pattern matches (with that match's captures) or else the default handler; a unique matching pattern is chosen under EVERY iteration order of the HashMap; over all histories every message handled without error produces exactly one written message (the handler's reply, or for Ok(None) a method return with reply_serial = call serial and destination = call sender), a handler error writes nothing and ends the loop; the table consulted for any message is exactly the initial table overridden by registrations of earlier handlers that returned Ok (routes of failing handlers never apply). Tied exhaustively for the matcher (all patterns x paths over {empty,a,b,:x,*} up to 3 (thorough 4) segments through PathMatcher::insert/get_match, with an independent oracle), by random route tables (legal-choice judgement for the HashMap's order) and by histories through DispatchConn::run on a real connection to a scripted peer with logging handlers (Ok(None) / custom reply / unmarshallable reply / Err, adding and replacing routes), replies decoded at the peer.",
+        "level_note": "Theorems are about the Lean model; the tie is exhaustive for the matcher up to the segment bound, sampled for tables and histories. run() also answers signals/returns with a method return (modelled; outside the property).",
+        "assumptions": ["handlers are deterministic functions of their inputs for the purpose of the model run", "a partially written reply counts as a connection failure"],
+    },
     "C01": {
         "id": "C01",
         "engine": "wire",
